@@ -19,7 +19,7 @@ type rconfig struct {
 	RTX    bool   `json:"rtx"`
 	Writes int    `json:"concurrent_writes"`
 	Third  string `json:"third_thread"` // "", "unbind", "close", "nack2"
-	Bound  int    `json:"preemption_bound"`
+	Bound  int    `json:"deviation_bound"`
 }
 
 func (c rconfig) name() string { b, _ := json.Marshal(c); return string(b) }
